@@ -2,6 +2,7 @@
 generation, stream damage, replays."""
 import json
 import os
+import re
 import subprocess
 import sys
 import time
@@ -27,13 +28,39 @@ ASSUMPTIONS = ["float_text_ok show17 read_f (hypothesis of the C11 theorems that
                "outside the model)"]
 
 
-def build():
+sys.path.insert(0, os.path.join(vv.VERIF, "gen"))
+import serial_order
+
+STATE = {"dist_refuses": 0, "elapsed_width": 32, "order_problems": [], "regenerated": False}
+
+
+def regen_order(snap):
+    """coq/Gen/SerialOrder.v from the snapshot of the sources; on a translator problem the
+    checked-in file is kept (tie = correspondence only for the field order)"""
+    problems, text = serial_order.generate(snap)
+    STATE["order_problems"] = problems
+    STATE["regenerated"] = not problems
+    if not problems:
+        with vv.Lock("coq"):
+            vv.write_if_changed(os.path.join(vv.COQ, "Gen", "SerialOrder.v"), text)
+    try:
+        with open(os.path.join(snap, "kernel", "evolution_summary.tcc")) as f:
+            STATE["elapsed_width"] = 32 if "int ms;" in f.read() else 64
+        body = serial_order.body_of(serial_order.strip_comments(open(os.path.join(snap, "kernel", "distribution.tcc")).read()),
+                                    r"bool\s+distribution<T>::save\s*\(") or ""
+        STATE["dist_refuses"] = 1 if re.search(r"isfinite\(m2_\)", body) and "return false" in body else 0
+    except OSError:
+        pass
+
+
+def build(ck=None):
     # other checks running at the same time may garbage-collect the source
     # snapshot between its creation and the compilation (vv._gc keeps 3): a
     # missing snapshot file is retried, any other build error is final
     for attempt in range(4):
         try:
-            vv.build_lib("asan")
+            L = vv.build_lib("asan")
+            regen_order(L["snap"])
             harness = vv.build_harness("h_serial")
             break
         except vv.BuildError as e:
@@ -41,6 +68,13 @@ def build():
                 raise
             time.sleep(1 + attempt)
     model = vv.ocaml_model("Serial")
+    if ck is not None:
+        if STATE["regenerated"]:
+            ck.tie = "regenerated+correspondence"
+        else:
+            ck.notes.append("translator gen/serial_order.py: " + "; ".join(STATE["order_problems"])[:400]
+                            + " -- checked-in Gen/SerialOrder.v kept, field order tied by correspondence only")
+        ck.trusted.append("gen/serial_order.py (operands of the out << / in >> chains of each save()/load() -> Gen/SerialOrder.v)")
     return harness, model
 
 
@@ -50,7 +84,7 @@ def sset_lines(harness):
     if crashes or any(o is None for o in out):
         raise vv.BuildError("harness cannot print the symbol sets: %s" % list(crashes.values())[:1])
     # 0,1: the problems the objects are built with; 2,3: the second, distinct problem objects
-    return ["SSET %d %s" % (k, out[k]) for k in range(4)]
+    return ["SSET %d %s" % (k, out[k]) for k in range(4)] + ["ELW %d" % STATE["elapsed_width"], "DSR %d" % STATE["dist_refuses"]]
 
 
 def run_model(model, sset, lines):
